@@ -4,68 +4,61 @@
    bv_restrict s bf keeps the supports named by the 3-bit set s (bit 0 rank, 1 select, 2 select_zero);
    bv_supports reads the supports_* flags back; bv_enable_op 0/1/2 is enable_rank / enable_select /
    enable_select_zero; ops_flags ops s is s with the bits of ops added. sp = which bits::select the build uses,
-   m = build mode; theorems hold for all four combinations. *)
+   m = build mode; theorems hold for all four combinations. bv_repr b B (Proofs/BVCommon.v): the record b stores
+   the bit sequence B; sub_of w bf: w has the bits of bf and some (possibly none) of its supports; bv_strip b: b
+   without supports. *)
 From Coq Require Import NArith List Bool.
 Require Import SDS.Model.Mach SDS.Model.Bits SDS.Model.Raw SDS.Model.IntVec SDS.Model.BitVec SDS.Model.Ser.
-Require Import SDS.gen.Consts SDS.Spec.Stream SDS.Proofs.SerProof SDS.Proofs.SerTypes SDS.Proofs.SerSupports SDS.Proofs.SerRank SDS.Proofs.SerMain.
+Require Import SDS.Model.WM SDS.Model.Sparse SDS.Model.SerComposite.
+Require Import SDS.gen.Consts SDS.Spec.Stream SDS.Spec.BitSeq SDS.Proofs.BVCommon SDS.Proofs.BVFull.
+Require Import SDS.Proofs.SerProof SDS.Proofs.SerTypes SDS.Proofs.SerSupports SDS.Proofs.SerRank SDS.Proofs.SerMain.
+Require Import SDS.Proofs.SerSelect SDS.Proofs.SerComposite.
 Import ListNotations.
 Open Scope list_scope.
 Open Scope N_scope.
 
-(* The full statement. b0: any bitvector without supports; bf: the same with all three built. *)
-Definition C19_supports_statement : Prop :=
-  forall sp m b0 bf, no_supports b0 -> raw_ok (bv_data b0) -> bv_ones b0 <= rlen (bv_data b0) ->
-  rlen (bv_data b0) + select_SUPERBLOCK_SIZE < 2 ^ 64 ->
-  bv_enable_all sp m b0 = Ok bf ->
+(* The plain bitvector, unconditionally. B: any bit sequence (shorter than 2^64 - 4096 bits: the loader's
+   div_round_up must not overflow); b0: any record that represents B (bv_repr: the words, the zero padding and the
+   cached count of ones are those of B -- what every constructor of the crate produces, BVFull.build_route_irrelevant)
+   and carries no support. Then enabling everything succeeds, and for the result bf and every subset s:
+   the restriction loads as exactly itself; the flags are exactly s; enabling in any order with any repeats
+   accumulates the flags, never changes the bits, and once all three are present the value IS bf (hence identical
+   bytes and answers). The select half rests on the builder's superblock-count invariant
+   (SelectProof.select_new_counts -> SerSelect.select_new_loadable), the rank half on SerRank.rank_new_ok. *)
+Theorem C19_supports :
+  forall sp m (B : list bool) b0,
+  lenB B + select_SUPERBLOCK_SIZE < 2 ^ 64 -> bv_repr b0 B -> no_supports b0 ->
+  exists bf, bv_enable_all sp m b0 = Ok bf /\ bv_repr bf B /\
   forall s, s < 8 ->
   (* written with exactly the supports in s, it loads as exactly that *)
   (forall rest, c_dec (bv_codec m) (c_enc (bv_codec m) (bv_restrict s bf) ++ rest) = IoOk (bv_restrict s bf, rest)) /\
   bv_supports (bv_restrict s bf) = s /\
-  (* enabling, in any order and with any repeats: the flags accumulate, the bits never change, and once all
-     three are present the value IS the fully enabled original (hence identical bytes and answers) *)
   (forall ops, Forall (fun op => op < 3) ops ->
      exists b', bv_enable_ops sp m ops (bv_restrict s bf) = Ok b' /\
                 bv_supports b' = ops_flags ops s /\ same_core b' bf /\
                 (ops_flags ops s = 7 -> b' = bf)).
+Proof. exact supports_full. Qed.
+Print Assumptions C19_supports.
 
-(* Proved under ONE extra hypothesis, select_supports_ok bf: the two select supports built by SelectSupport::new
-   pass the loader's checks (three well-formed integer vectors, superblocks = long + short, and the superblock
-   count BitVector::load insists on). That is the superblock-count invariant of the select builder, which belongs
-   to the C01 select proofs and is not re-proved here; the correspondence run exercises it on every generated
-   vector (every load of a built vector succeeds). The rank half IS proved from the builder (rank_new_ok). *)
-Check (eq_refl : select_supports_ok = fun bf =>
-  match bv_select bf with None => True
-  | Some v => ss_ok v /\ ss_superblocks v = ceil_div (bv_ones bf) select_SUPERBLOCK_SIZE end /\
-  match bv_select_zero bf with None => True
-  | Some v => ss_ok v /\ ss_superblocks v = ceil_div (rlen (bv_data bf) - bv_ones bf) select_SUPERBLOCK_SIZE end).
+(* what SelectSupport::new builds passes every check of SelectSupport::load (three loadable integer vectors,
+   superblocks = long_superblocks + short_superblocks in the rounded-up arithmetic of the crate) and has the
+   superblock count BitVector::load insists on; t = Identity (select) or Complement (select_zero) *)
+Check (eq_refl : ss_ok = fun s =>
+  iv_ok (ss_samples s) /\ iv_ok (ss_long s) /\ iv_ok (ss_short s) /\
+  ilen (ss_long s) + select_SUPERBLOCK_SIZE < 2 ^ 64 /\ ilen (ss_short s) + select_BLOCKS_IN_SUPERBLOCK < 2 ^ 64 /\
+  ss_superblocks s = ss_long_superblocks s + ss_short_superblocks s).
+Theorem C19_select_support_loadable :
+  forall sp m t b B s, bv_repr b B -> lenB B + 4096 < 2 ^ 64 -> select_new sp m t b = Ok s ->
+  ss_ok s /\ ss_superblocks s = ceil_div (t_count_ones t b) select_SUPERBLOCK_SIZE.
+Proof. exact select_new_loadable. Qed.
+Print Assumptions C19_select_support_loadable.
 
-Theorem C19_supports_partial :
-  forall sp m b0 bf, no_supports b0 -> raw_ok (bv_data b0) -> bv_ones b0 <= rlen (bv_data b0) ->
-  rlen (bv_data b0) + select_SUPERBLOCK_SIZE < 2 ^ 64 ->
-  bv_enable_all sp m b0 = Ok bf ->
-  select_supports_ok bf ->
-  forall s, s < 8 ->
-  (forall rest, c_dec (bv_codec m) (c_enc (bv_codec m) (bv_restrict s bf) ++ rest) = IoOk (bv_restrict s bf, rest)) /\
-  bv_supports (bv_restrict s bf) = s /\
-  (forall ops, Forall (fun op => op < 3) ops ->
-     exists b', bv_enable_ops sp m ops (bv_restrict s bf) = Ok b' /\
-                bv_supports b' = ops_flags ops s /\ same_core b' bf /\
-                (ops_flags ops s = 7 -> b' = bf)).
-Proof.
-  intros sp m b0 bf H0 Hraw Ho Hl E Hsel s Hs.
-  pose proof (built_bv_ok sp m b0 bf H0 Hraw Ho Hl E Hsel) as W.
-  split; [|split].
-  - intros rest. exact (proj1 (supports_roundtrip sp m b0 bf s rest H0 E W Hs)).
-  - exact (proj2 (supports_roundtrip sp m b0 bf s [] H0 E W Hs)).
-  - intros ops Hops. exact (supports_rebuild sp m b0 bf s ops H0 E Hs Hops).
-Qed.
 (* the rank support the builder produces always passes the loader's checks *)
 Theorem C19_rank_support_loadable :
   forall b rs, raw_ok (bv_data b) -> rlen (bv_data b) + 512 < 2 ^ 64 -> rank_new b = Ok rs ->
   rs_ok rs /\ rs_blocks rs = ceil_div (rlen (bv_data b)) rank_BLOCK_SIZE.
 Proof. exact rank_new_ok. Qed.
 Print Assumptions C19_rank_support_loadable.
-Print Assumptions C19_supports_partial.
 
 (* the rebuilding half needs no hypothesis at all *)
 Theorem C19_rebuild :
@@ -139,8 +132,60 @@ Qed.
 Print Assumptions C19_skip_option.
 Print Assumptions C19_absent_option.
 
-(* NOT in this round (see "partial" in tools/props.d/C19.json): SparseVector / WMCore / WaveletMatrix decoded
-   from files whose embedded bitvectors carry no supports. *)
+(* ---------------------------------------------------------------- composite structures *)
+
+(* WMCore / WaveletMatrix. Bs: the level sequences; ls0: the levels before init_support (any records that
+   represent them without supports); lsf: the levels of the natively built core, all three supports on each.
+   Every list ws of records with the bits of the native levels and ANY subset of their supports -- in particular
+   none, map bv_strip lsf: what a writer that cannot build supports produces -- is turned back into lsf by
+   init_support on every select path and in every mode, and a core / a wavelet matrix written with ws loads as the
+   native one (WMCore::load, WaveletMatrix::load of Model/SerComposite.v: width and length checks included). *)
+Theorem C19_levels_rebuild :
+  forall sp m (Bs : list (list bool)) (ls0 : list bitvec),
+  Forall2 bv_repr ls0 Bs -> Forall no_supports ls0 ->
+  Forall (fun B => lenB B + select_SUPERBLOCK_SIZE < 2 ^ 64) Bs ->
+  exists lsf, init_support sp m ls0 = Ok lsf /\ Forall2 bv_repr lsf Bs /\
+    Forall (fun b => bv_supports b = 7) lsf /\
+    Forall2 sub_of (map bv_strip lsf) lsf /\
+    forall ws, Forall2 sub_of ws lsf ->
+      (forall sp' m', init_support sp' m' ws = Ok lsf) /\
+      (forall sp' m' len rest, 1 <= lenN ls0 <= 64 -> Forall (fun B => lenB B = len) Bs ->
+         wmcore_dec sp' m' (wmcore_enc m' (mkcore ws) ++ rest) = IoOk (mkcore lsf, rest)) /\
+      (forall sp' m' len first rest, 1 <= lenN ls0 <= 64 -> Forall (fun B => lenB B = len) Bs -> iv_ok first ->
+         wm_dec sp' m' (wm_enc m' (mkwm len (mkcore ws) first) ++ rest) = IoOk (mkwm len (mkcore lsf) first, rest)).
+Proof. exact levels_rebuild. Qed.
+Print Assumptions C19_levels_rebuild.
+
+(* SparseVector. H: the high bits; h0: From<RawVector> of them (any record that represents H without supports);
+   hf: the high part of the natively built vector (enable_select, then enable_select_zero; no rank). Every record w
+   with the bits of hf and any subset of its two select supports (in particular none) becomes hf again under the two
+   enables of SparseVector::load, on every path and in every mode, and a sparse vector written with w in place of
+   hf loads as the one with hf. The loader's two sanity checks on (len, low) are hypotheses here: ones = low.len()
+   and high.len() = low.len() + get_buckets(len, low.width()). That every natively built vector satisfies them is
+   the builder's invariant (C02's side), see C19_sparse_native_statement below. *)
+Theorem C19_high_rebuild :
+  forall sp m (H : list bool) (h0 : bitvec),
+  bv_repr h0 H -> no_supports h0 -> lenB H + select_SUPERBLOCK_SIZE < 2 ^ 64 ->
+  exists h1 hf, bv_enable_select_t sp m Identity h0 = Ok h1 /\ bv_enable_select_t sp m Complement h1 = Ok hf /\
+    bv_repr hf H /\ bv_rank hf = None /\ bv_select hf <> None /\ bv_select_zero hf <> None /\
+    sub_of (bv_strip hf) hf /\
+    forall w, sub_of w hf ->
+      (forall sp' m', exists h1', bv_enable_select_t sp' m' Identity w = Ok h1' /\
+                                  bv_enable_select_t sp' m' Complement h1' = Ok hf) /\
+      (forall sp' m' len low bk rest, len < 2 ^ 64 -> iv_ok low ->
+         ilen low = count H -> get_buckets len (iwidth low) = Ok bk -> lenB H = ilen low + bk ->
+         sparse_dec sp' m' (sparse_enc m' (mksv len w low) ++ rest) = IoOk (mksv len hf low, rest)).
+Proof. exact high_rebuild. Qed.
+Print Assumptions C19_high_rebuild.
+
+(* NOT proved (see "partial" in tools/props.d/C19.json): the same for a sparse vector as the builder makes it, with
+   the two sanity checks discharged from the builder's invariant instead of assumed. *)
+Definition C19_sparse_native_statement : Prop :=
+  forall sp m w n ps sv, sv_build_set sp m w n ps = Ok (inl sv) ->
+  bv_len (sv_high sv) + select_SUPERBLOCK_SIZE < 2 ^ 64 ->
+  forall wh, sub_of wh (sv_high sv) ->
+  forall sp' m' rest,
+    sparse_dec sp' m' (sparse_enc m' (mksv (sv_len sv) wh (sv_low sv)) ++ rest) = IoOk (sv, rest).
 
 (* ---------------------------------------------------------------- non-vacuity *)
 
@@ -149,21 +194,38 @@ Definition ex_b0 : bitvec := bv_from_raw (mkraw 700 ex_words).
 Definition ex_bf : bitvec := match bv_enable_all Pdep Debug ex_b0 with Ok b => b | _ => ex_b0 end.
 Example ex_built : no_supports ex_b0 /\ bv_enable_all Pdep Debug ex_b0 = Ok ex_bf /\ bv_supports ex_bf = 7.
 Proof. split; [repeat split|]. split; vm_compute; reflexivity. Qed.
-Example ex_hyps : raw_ok (bv_data ex_b0) /\ bv_ones ex_b0 <= rlen (bv_data ex_b0) /\ select_supports_ok ex_bf.
+(* the hypotheses of C19_supports are satisfiable for EVERY sequence below the length bound: the record all
+   construction routes produce *)
+Example ex_hyps : forall B, lenB B + select_SUPERBLOCK_SIZE < 2 ^ 64 ->
+  exists b0, bv_from_bits B = Ok b0 /\ bv_repr b0 B /\ no_supports b0.
 Proof.
-  split; [|split].
-  - unfold raw_ok. cbn [ex_b0 bv_from_raw bv_data rlen rdata]. split; [vm_compute; reflexivity|].
-    split; [vm_compute; reflexivity|]. unfold ex_words. repeat (constructor; [vm_compute; reflexivity|]). constructor.
-  - vm_compute. intros X. discriminate X.
-  - let v := eval vm_compute in ex_bf in change ex_bf with v.
-    unfold select_supports_ok, ss_ok, iv_ok, raw_ok. cbn [bv_ones bv_data bv_rank bv_select bv_select_zero rlen rdata].
-    repeat match goal with
-           | |- _ /\ _ => split
-           | |- Forall _ _ => constructor
-           end; vm_compute; first [reflexivity | discriminate | (let X := fresh in intro X; discriminate X)].
+  intros B HL. destruct (bv_from_bits_ok B) as (b & E & R & N1 & N2 & N3).
+  - apply N.lt_trans with (lenB B + select_SUPERBLOCK_SIZE); [|exact HL].
+    apply N.lt_add_pos_r. reflexivity.
+  - exists b. split; [exact E|]. split; [exact R|]. split; [exact N1|]. split; [exact N2|exact N3].
 Qed.
+(* written with {rank, select_zero} it loads as exactly that, and reports exactly those two *)
+Example ex_roundtrip :
+  c_dec (bv_codec Debug) (c_enc (bv_codec Debug) (bv_restrict 5 ex_bf) ++ le64 99) = IoOk (bv_restrict 5 ex_bf, le64 99) /\
+  bv_supports (bv_restrict 5 ex_bf) = 5.
+Proof. split; vm_compute; reflexivity. Qed.
 (* written with {rank, select_zero}; enabling select, then rank again, gives the fully enabled vector *)
 Example ex_rebuild : bv_enable_ops Pdep Debug [1; 0] (bv_restrict 5 ex_bf) = Ok ex_bf.
 Proof. vm_compute. reflexivity. Qed.
 Example ex_skip : skip_option Debug (c_enc (option_codec (raw_codec Debug)) (Some (mkraw 70 [5; 3])) ++ le64 99) = IoOk (tt, le64 99).
 Proof. vm_compute. reflexivity. Qed.
+(* a two-level core written without any support on level 0 and with {rank, select_zero} on level 1 loads as the
+   fully enabled core *)
+Example ex_core : wmcore_dec Pdep Debug (wmcore_enc Debug (mkcore [bv_strip ex_bf; bv_restrict 5 ex_bf]) ++ le64 99)
+                  = IoOk (mkcore [ex_bf; ex_bf], le64 99).
+Proof. vm_compute. reflexivity. Qed.
+(* Elias-Fano of {1, 6, 13} in a universe of 16 (low width 2: high = 1010010, low = [1; 2; 1]) written with a
+   high part that carries no supports loads with both select supports built *)
+Definition ex_high0 : bitvec := bv_from_raw (mkraw 7 [37]).
+Definition ex_high : bitvec :=
+  match (let* h1 := bv_enable_select_t Pdep Debug Identity ex_high0 in bv_enable_select_t Pdep Debug Complement h1) with
+  | Ok h => h | _ => ex_high0 end.
+Example ex_sparse : bv_supports ex_high = 6 /\
+  sparse_dec Pdep Debug (sparse_enc Debug (mksv 16 ex_high0 (mkiv 3 2 (mkraw 6 [25]))) ++ le64 99)
+  = IoOk (mksv 16 ex_high (mkiv 3 2 (mkraw 6 [25])), le64 99).
+Proof. split; vm_compute; reflexivity. Qed.
